@@ -193,8 +193,16 @@ func (c *c15ctx) blockTime(r *vkit.RNG, window time.Duration, in bool) time.Time
 		if r.Chance(1, 12) {
 			return now.Add(10 * time.Minute) // clock skew: a block from the near future
 		}
+		if r.Chance(1, 6) && window > time.Hour {
+			// close to the boundary, still inside by 30–55 minutes (for the default window this is older
+			// than the light nodes' sampling window, which is one hour shorter than the storage window)
+			return now.Add(-window + 30*time.Minute + time.Duration(r.Range(0, 25))*time.Minute)
+		}
 		half := int(window / 2 / time.Minute)
 		return now.Add(-time.Duration(r.Range(0, half)) * time.Minute)
+	}
+	if r.Chance(1, 6) {
+		return now.Add(-window - 30*time.Minute - time.Duration(r.Range(0, 25))*time.Minute) // just outside
 	}
 	return now.Add(-window - 24*time.Hour - time.Duration(r.Range(0, 30*24))*time.Hour)
 }
